@@ -7,6 +7,31 @@ import io
 from vlib import core, ev, wire, gen, histories as H
 
 
+def scribble(obj, depth=0):
+    """What a consumer may do with a result it was handed: edit it in place (drop entries of its lists, clear its dicts,
+    overwrite its fields).  Results belong to the caller; nothing decoded later may read them back."""
+    import dataclasses
+    if depth > 3 or obj is None:
+        return
+    if isinstance(obj, list):
+        for x in obj[:4]:
+            scribble(x, depth + 1)
+        obj.clear()
+        return
+    if isinstance(obj, dict):
+        obj.clear()
+        return
+    if dataclasses.is_dataclass(obj) and not isinstance(obj, type):
+        for f in dataclasses.fields(obj):
+            v = getattr(obj, f.name, None)
+            if isinstance(v, (list, dict)) or (dataclasses.is_dataclass(v) and not isinstance(v, type)):
+                scribble(v, depth + 1)
+            try:
+                setattr(obj, f.name, None)
+            except Exception:          # frozen results cannot be overwritten: nothing to do
+                pass
+
+
 def run_stream(res, key_prefix, cases, rng, label):
     """cases: [(abstract event sequence, expected list of renderings, description)]."""
     if not cases:
@@ -38,11 +63,13 @@ def run_stream(res, key_prefix, cases, rng, label):
         try:
             for gi, group in enumerate(items):
                 events = H.materialize(group, t0=ts)
-                ts = events[-1].timestamp + 7
+                ts = max(e.timestamp for e in events) + 100
                 for e in events:
                     t = parser.feed(e)
                     if t is not None:
                         got.setdefault((gi, t.ktraces[0].tid), []).append(str(t))
+                        if mode == 'two_threads':
+                            scribble(t)         # the consumer edits what it was given (results belong to the caller)
         except Exception as x:
             res.violation(f'{key_prefix}-stream-raises-{core.exc_name(x)}', f'{label}: feeding {len(cases)} windows through one '
                           f'parser raised {x!r} at {core.short_tb(x)}')
@@ -78,9 +105,9 @@ def run_files(res, key_prefix, cases, rng, label, limit=600):
     for gi, i in enumerate(order):
         seq = cases[i][0]
         evs = H.materialize([(6, a) for a in seq], t0=ts, step=0 if gi % 2 else 7)
-        spans.append((ts, evs[-1].timestamp))
+        spans.append((min(e.timestamp for e in evs), max(e.timestamp for e in evs)))
         events += evs
-        ts = evs[-1].timestamp + 7
+        ts = spans[-1][1] + 100          # (a jittered clock stamps records up to 30 ticks early)
     records = gen.events_to_records(events)
     entries = [(6, 100, b'proc0', b'')]
     files = {'v2': wire.v2_file(entries, 8, records),
@@ -148,10 +175,9 @@ def run_stretched(res, key_prefix, cases, rng, label, rungs):
         return
     for w in rungs:
         seq, texts, desc = rng.choice(startable)
-        filler = H.window_filler(rng, max(0, w - len(seq)))
         where = rng.choice((1, len(seq) - 1))              # right after the START / right before the last record
-        events = H.materialize([(6, a) for a in list(seq[:where]) + filler + list(seq[where:])], t0=5000)
-        own = {id(e) for e in events[:where] + events[where + len(filler):]}
+        events, own = H.stretched_events(seq, where, w, rng)
+        filler = events[where:where + len(events) - len(seq)]
         parser = ev.new_parser()
         got = []
         try:
@@ -242,7 +268,7 @@ def run_front_end_sequences(res, key_prefix, cases, rng, label, n=40):
             other = rng.choice(cases)[0]
             cut = rng.randrange(1, len(seq))
             evs = H.materialize([(6, a) for a in seq], t0=5000)
-            tail = H.materialize([(6, a) for a in other], t0=evs[-1].timestamp + 7)
+            tail = H.materialize([(6, a) for a in other], t0=max(e.timestamp for e in evs) + 100)
             entries = [(6, 100, b'proc0', b'')]
             dumps = []
             for part in (evs[:cut], evs[cut:] + tail):
@@ -275,6 +301,8 @@ def run_all(res, key_prefix, cases, rng, label, ctx):
     run_threads(res, key_prefix, cases, rng, label)
     run_front_end_sequences(res, key_prefix, cases, rng, label, n=ctx.pick(12, 60))
     run_relabelled(res, key_prefix, cases, rng, label, n=ctx.pick(200, 2000))
+    if ctx.shard == 0 or ctx.thorough:
+        run_cold(res, key_prefix, cases, rng, label, n_procs=ctx.pick(6, 12))
 
 
 def run_relabelled(res, key_prefix, cases, rng, label, n=200):
@@ -302,3 +330,51 @@ def run_relabelled(res, key_prefix, cases, rng, label, n=200):
                           f'lists each name under several ids and the records use any of them, {texts} under the bundled ids',
                           {'description': desc})
             return
+
+
+def run_cold(res, key_prefix, cases, rng, label, n_procs=8, n_cases=40, n_threads=4):
+    """Cold start under concurrency (vlib/coldstart.py): fresh interpreters in which several OS threads decode the same
+    windows for the first time at the same moment.  Every thread renders what a warm single-threaded run renders."""
+    import json
+    import os
+    import subprocess
+    import sys
+    import tempfile
+    pool = list(cases)
+    rng.shuffle(pool)
+    pool = pool[:n_cases]
+    if not pool:
+        return
+
+    def enc(p):
+        return {'hex': bytes(p).hex()} if isinstance(p, (bytes, bytearray)) else list(p)
+    work = os.path.join(core.VERIF_DIR, '.work')
+    fd, path = tempfile.mkstemp(prefix='verif-cold-', suffix='.json', dir=work if os.path.isdir(work) else None)
+    with os.fdopen(fd, 'w') as f:
+        json.dump({'threads': n_threads, 'cases': [[[c, q, enc(p)] for c, q, p in seq] for seq, _, _ in pool]}, f)
+    try:
+        procs = [subprocess.Popen([sys.executable, '-m', 'vlib.coldstart', path], stdout=subprocess.PIPE,
+                                  stderr=subprocess.PIPE, env=dict(os.environ)) for _ in range(n_procs)]
+        for p in procs:
+            try:
+                stdout, stderr = p.communicate(timeout=300)
+            except subprocess.TimeoutExpired:
+                p.kill()
+                res.inconclusive.append(f'{label}: a cold-start interpreter did not finish')
+                continue
+            if p.returncode != 0:
+                res.inconclusive.append(f'{label}: cold-start interpreter failed: {stderr.decode("utf-8", "replace")[-400:]}')
+                continue
+            out = json.loads(stdout)
+            res.count('cold_start_interpreters')
+            for k, texts in sorted(out.items()):
+                res.count('windows_rendered_at_cold_start', len(texts))
+                for (seq, want, desc), got in zip(pool, texts + [None] * (len(pool) - len(texts))):
+                    if got != want:
+                        res.violation(f'{key_prefix}-differs-at-concurrent-cold-start', f'{label}: {desc}: in a fresh '
+                                      f'interpreter with {n_threads} OS threads decoding the same windows for the first time at '
+                                      f'the same moment thread {k} rendered {got}, a warm single-threaded run {want}',
+                                      {'description': desc})
+                        return
+    finally:
+        os.unlink(path)
